@@ -196,6 +196,21 @@ def exact_case(rng, chk, it):
                 nprocs=[1], rank=[0], nL=6)
 
 
+def near_node_case(rng, chk, it):
+    """exact family, feet a tiny dyadic distance (2^-18 .. 2^-34 of a cell) away from a node, on either side: the on-node branch of the
+    barycentric weights must NOT be taken, and the floor must fall on the correct side"""
+    c = exact_case(rng, chk, it)
+    dz, dt = c['dz'], c['dt']
+    v = []
+    for _ in range(4):
+        m = rng.randint(-9, 9)
+        delta = rng.choice([1, -1]) * 2.0 ** -rng.randint(18, 34)
+        v.append(-(m + delta) * dz / dt)
+    c['v'] = sorted(set(v))
+    c['near_node'] = True
+    return c
+
+
 def generic_case(rng, chk, it):
     nz = rng.randint(7, 12)
     deg, uniform = rng.choice([(3, True), (3, False), (3, True), (5, False), (2, False), (4, False)])
@@ -443,6 +458,9 @@ def run(chk):
             run_case(chk, drv, exact_case(rng, chk, it), stats)
         for it in range(n_gen):
             run_case(chk, drv, generic_case(rng, chk, it), stats)
+        for it in range(chk.n(12, 120)):
+            run_case(chk, drv, near_node_case(rng, chk, it), stats)
+            chk.count('near-node cases')
     finally:
         drv.close()
     chk.notes['max |code - model| / (eps * scale)'] = round(stats['worst'], 3)
